@@ -136,9 +136,18 @@ def p_scale(a: Poly, k) -> Poly:
     return {m: c * k for m, c in a.items()}
 
 
+class TermTooLarge(BaseException):
+    """a normal form grew beyond the size limit: the current obligation / path is given up as undecided"""
+
+
+SIZE_LIMIT = 150000
+
+
 def p_mul(a: Poly, b: Poly) -> Poly:
     if not a or not b:
         return {}
+    if len(a) * len(b) > 40 * SIZE_LIMIT:
+        raise TermTooLarge(f"product of {len(a)} x {len(b)} terms")
     if len(a) == 1:
         (ma, ca), = a.items()
         if not ma:
@@ -161,6 +170,8 @@ def p_mul(a: Poly, b: Poly) -> Poly:
                     out[m] = v
                 else:
                     del out[m]
+        if len(out) > SIZE_LIMIT:
+            raise TermTooLarge(f"polynomial with more than {SIZE_LIMIT} terms")
     return out
 
 
